@@ -16,10 +16,15 @@ class Universe:
         self.idx = {n: i for i, n in enumerate(self.names)}
         self.X = []
         for i in range(m):
-            x = 0
-            for a in range(N):
-                if (a >> i) & 1:
-                    x |= 1 << a
+            # bit a of x is bit i of a: blocks of 2**i zeros then 2**i ones, repeated
+            s = 1 << i
+            x = ((1 << s) - 1) << s
+            width = 2 * s
+            while width < N:
+                x |= x << width
+                width *= 2
+            if m <= 8:      # the definition, written out
+                assert x == sum(1 << a for a in range(N) if (a >> i) & 1)
             self.X.append(x)
         self.true = self.full
         self.false = 0
